@@ -2,6 +2,7 @@
 """Side-car contracts for plumpy.persistence (C19, C07, C14).  Parsed with ast by pyvc; never executed."""
 import asyncio
 import copy
+import types
 from plumpy import loaders
 from plumpy.loaders import ObjectLoader, DefaultObjectLoader
 from plumpy.persistence import (META, META__CLASS_NAME, META__OBJECT_LOADER, META__TYPE__METHOD, META__TYPE__SAVABLE,
@@ -10,12 +11,14 @@ from plumpy.persistence import (META, META__CLASS_NAME, META__OBJECT_LOADER, MET
 CONFIG = {
     'attr_types': {
         'plumpy.persistence.LoadSaveContext._values': 'dict',
+        'plumpy.persistence.LoadSaveContext.loader': 'None|plumpy.loaders.ObjectLoader',
     },
     'user_havoc': 'all',
     'protected_classes': ['plumpy.persistence.LoadSaveContext'],
     # ghost: the saved-state mapping most recently produced by Savable.save() of an object
     # INDEP: history flag of a Bundle: it was filled from a fresh deep copy of the saved state (set at construction)
-    'ghost_arrays': {'LASTSAVED': 'val', 'INDEP': 'bool'},
+    # LOADED: the object most recently recreated from a saved-state mapping (keyed by the mapping)
+    'ghost_arrays': {'LASTSAVED': 'val', 'INDEP': 'bool', 'LOADED': 'val'},
 }
 
 
@@ -102,19 +105,31 @@ def _set_class_name(out_state, name):
 
 @contract('plumpy.persistence.Savable._get_class_name', props=['C19'])
 def _get_class_name(saved_state):
+    """reads the recorded class name; (it goes through _get_create_meta, so a state without metadata gains an empty
+    '!!meta' entry before the KeyError)"""
     requires(wf_state(saved_state))
-    modifies(all_heap)
-    ensures('reads_recorded', result is dget(dget(saved_state, '!!meta'), 'class_name'))
+    modifies(contents(saved_state))
+    ensures('reads_recorded', result is dget(dget(saved_state, '!!meta'), 'class_name') and dict_unchanged(saved_state)
+            and dhas(saved_state, '!!meta') and dhas(dget(saved_state, '!!meta'), 'class_name'))
     raises(KeyError, not (old(dhas(saved_state, '!!meta')) and old(dhas(dget(saved_state, '!!meta'), 'class_name'))))
 
 
-@contract('plumpy.persistence.Savable._set_meta_type', props=['C19'])
-def _set_meta_type(out_state, name, type_spec):
+@contract('plumpy.persistence.Savable._set_meta_type', props=['C19'], ghost=['M', 'K'])
+def _set_meta_type(out_state, name, type_spec, M=None, K=None):
+    """K: an arbitrary top-level key, M: an arbitrary member name (pointwise frame)"""
     requires(wf_state(out_state) and is_str(name))
-    modifies(all_heap)
+    requires(is_str(M) and is_str(K))
+    modifies(contents(out_state), contents(dget(out_state, '!!meta'), when=dhas(out_state, '!!meta')),
+             contents(dget(dget(out_state, '!!meta'), 'types'), when=dhas(out_state, '!!meta') and dhas(dget(out_state, '!!meta'), 'types')))
     raises_nothing()
     ensures('recorded', has_meta_type(out_state, name) and meta_type(out_state, name) is type_spec)
     ensures('wf', wf_state(out_state))
+    ensures('entries_kept', implies(K != '!!meta', dhas(out_state, K) == old(dhas(out_state, K))
+                                    and dget(out_state, K) is old(dget(out_state, K))))
+    ensures('entries_kept_m', implies(M != '!!meta', dhas(out_state, M) == old(dhas(out_state, M))
+                                      and dget(out_state, M) is old(dget(out_state, M))))
+    ensures('other_types_kept', implies(M != name, has_meta_type(out_state, M) == old(has_meta_type(out_state, M))
+                                        and implies(has_meta_type(out_state, M), meta_type(out_state, M) is old(meta_type(out_state, M)))))
 
 
 @contract('plumpy.persistence.Savable._get_meta_type', props=['C19'])
@@ -181,7 +196,7 @@ def copyextend(self, **kwargs):
     ensures('invariant', wf_lsc(ret))
 
 
-@contract('plumpy.persistence._ensure_object_loader', props=['C19'])
+@contract('plumpy.persistence._ensure_object_loader', props=['C19'], result_class='plumpy.persistence.LoadSaveContext')
 def _ensure_object_loader(context, saved_state):
     """loader precedence: the context's, else the one recorded in the saved state, else the global default"""
     requires(context is None or (isinstance(context, LoadSaveContext) and wf_lsc(context)))
@@ -191,7 +206,7 @@ def _ensure_object_loader(context, saved_state):
     requires(implies(has_custom_meta(saved_state, 'object_loader'),
                      is_heap_obj(uf('loaded', ghost_const('default_loader'), custom_meta(saved_state, 'object_loader')))
                      and not is_function(uf('loaded', ghost_const('default_loader'), custom_meta(saved_state, 'object_loader')))))
-    modifies(all_heap)
+    modifies(user_effects)
     has_ctx = context is not None and old(context.loader) is not None
     recorded = old(has_custom_meta(saved_state, 'object_loader'))
     ensures('context_first', implies(has_ctx, ret is context and ret.loader is old(context.loader)))
@@ -201,6 +216,7 @@ def _ensure_object_loader(context, saved_state):
                                        and len(seq(calls()[len(calls()) - 1].args)) == 0
                                        and ret.loader is attr(calls()[len(calls()) - 1], 'result')))
     ensures('default_last', implies(not has_ctx and not recorded, ret.loader is ghost_const('default_loader')))
+    ensures('no_user_code_otherwise', implies(has_ctx or not recorded, len(calls()) == old(len(calls()))))
     ensures('is_context', isinstance(ret, LoadSaveContext) and ret.loader is not None or has_ctx or recorded)
     raises(ValueError, True)
     raises(Exception, not has_ctx and recorded)
@@ -328,7 +344,7 @@ def savable_save(self, save_context=None):
     LASTSAVED remembers it"""
     modifies()
     ghost_update('LASTSAVED', self, ret)
-    ensures(is_dict(ret) and fresh(ret) and dlen(ret) >= 0 and ghost('LASTSAVED', self) is ret)
+    ensures(is_dict(ret) and fresh(ret) and dlen(ret) >= 0 and ghost('LASTSAVED', self) is ret and uf('saved_of', ret) is self)
     raises(Exception, True)
 
 
@@ -348,3 +364,86 @@ def bundle_init(self, savable, save_context=None, dereference=False):
     ghost_update('INDEP', self, independent_snapshot(self, savable))   # history variable, fixed at construction
     ensures('dereferenced_is_independent', implies(truthy(dereference), ghost('INDEP', self)))
     raises(Exception, True)
+
+
+# ------------------------------------------------------------------------------------------------ the member machinery (C19, C07)
+@spec
+def is_method(v):
+    return is_ref(v) and cls_of(v) is types.MethodType
+
+
+@spec
+def copied(v, x):
+    """v is what copy.deepcopy(x) returned (assumed contract of deepcopy: equal, and disjoint from x for mutable x)"""
+    return implies(not is_ref(x), v is x) and implies(is_ref(x), is_ref(v) and uf('copy_src', v) is x)
+
+
+@spec
+def saved_member(self, out_state, name, v0):
+    """what the saved state records for member `name` whose value was v0:
+    a method bound to the object itself -> its name, marked 'm'; a nested Savable -> its own saved state, marked 'S';
+    anything else -> a deep copy taken now"""
+    return (dhas(out_state, name)
+            and implies(is_method(v0), dget(out_state, name) == attr(v0, '__name__') and has_meta_type(out_state, name)
+                        and meta_type(out_state, name) == 'm')
+            and implies(not is_method(v0) and isinstance(v0, Savable),
+                        is_dict(dget(out_state, name)) and uf('saved_of', dget(out_state, name)) is v0 and has_meta_type(out_state, name)
+                        and meta_type(out_state, name) == 'S')
+            and implies(not is_method(v0) and not isinstance(v0, Savable), copied(dget(out_state, name), v0)))
+
+
+@contract('plumpy.persistence.Savable.save_members', props=['C19', 'C07'], ghost=['M', 'K'])
+def save_members(self, members, out_state, M=None, K=None):
+    """every declared member is recorded (M: an arbitrary member name), nothing else of the saved state is touched
+    (K: an arbitrary other key), and the object itself is not modified"""
+    requires(isinstance(self, Savable) and is_dict(out_state) and wf_state(out_state))
+    requires(is_set(members) and forall(lambda k: implies(dhas(members, k), is_str(k) and k != '!!meta')))
+    # declared members are data attributes of the instance (not names of methods/properties of the class)
+    requires(forall(lambda k: implies(dhas(members, k), not class_level_name(self, k))))
+    requires(is_str(M) and is_str(K))
+    requires(members is not out_state)
+    v0 = attr(self, M)
+    modifies(contents(out_state), contents(dget(out_state, '!!meta'), when=dhas(out_state, '!!meta')),
+             contents(dget(dget(out_state, '!!meta'), 'types'), when=dhas(out_state, '!!meta') and dhas(dget(out_state, '!!meta'), 'types')),
+             ghost('LASTSAVED'))
+    ensures('member_recorded', implies(dhas(members, M), saved_member(self, out_state, M, v0)))
+    ensures('other_entries_kept', implies(not dhas(members, K) and K != '!!meta', dhas(out_state, K) == old(dhas(out_state, K))
+                                          and dget(out_state, K) is old(dget(out_state, K))))
+    ensures('wf', wf_state(out_state))
+    raises(TypeError, exists(lambda k: dhas(members, k) and is_method(attr(self, k)) and attr(attr(self, k), '__self__') is not self))
+    raises(Exception, exists(lambda k: dhas(members, k) and isinstance(attr(self, k), Savable)))
+    loop_modifies(0, contents(out_state), contents(dget(out_state, '!!meta'), when=dhas(out_state, '!!meta')),
+                  contents(dget(dget(out_state, '!!meta'), 'types'), when=dhas(out_state, '!!meta') and dhas(dget(out_state, '!!meta'), 'types')),
+                  ghost('LASTSAVED'))
+    loop_invariant(0, 'wf', wf_state(out_state))
+    loop_invariant(0, 'recorded_so_far', implies(M in _seen, saved_member(self, out_state, M, v0)))
+    loop_invariant(0, 'others_kept', implies(not dhas(members, K) and K != '!!meta', dhas(out_state, K) == old(dhas(out_state, K))
+                                             and dget(out_state, K) is old(dget(out_state, K))))
+    replay('member_recorded', 'savable_members')
+    replay('other_entries_kept', 'savable_members')
+    replay('loop0.recorded_so_far.preserved', 'savable_members')
+    replay('loop0.others_kept.preserved', 'savable_members')
+    replay('loop0.wf.preserved', 'savable_members')
+
+
+@contract('plumpy.persistence.Savable._get_value', props=['C19', 'C07'])
+def _get_value(self, saved_state, name, load_context):
+    """inverse of save_members for one member: 'm' -> the method of THIS object with the recorded name, 'S' -> the nested
+    Savable recreated from its own saved state with the same load context, otherwise the recorded value itself"""
+    requires(isinstance(self, Savable) and is_dict(saved_state) and wf_state(saved_state) and owned_state(saved_state) and is_str(name))
+    requires(load_context is None or (isinstance(load_context, LoadSaveContext) and wf_lsc(load_context)))
+    requires(implies(has_meta_type(saved_state, name) and meta_type(saved_state, name) == 'S' and dhas(saved_state, name),
+                     loadable_state(dget(saved_state, name), load_context)))
+    modifies(user_effects)
+    typ = old(meta_type(saved_state, name))
+    marked = old(has_meta_type(saved_state, name))
+    v = old(dget(saved_state, name))
+    ghost_update('LOADED', v, ret if (marked and typ == 'S') else old(ghost('LOADED', v)))
+    ensures('remembers_only_what_it_loaded', implies(not (marked and typ == 'S'), ghost('LOADED', v) is old(ghost('LOADED', v))))
+    ensures('present', old(dhas(saved_state, name)))
+    ensures('plain_value', implies(not (marked and (typ == 'm' or typ == 'S')), ret is v))
+    ensures('nested_savable', implies(marked and typ == 'S', ret is ghost('LOADED', v)))
+    raises(KeyError, not old(dhas(saved_state, name)))
+    raises(Exception, marked and (typ == 'm' or typ == 'S'))
+    replay('plain_value', 'savable_members')
+    replay('nested_savable', 'savable_members')
